@@ -702,13 +702,15 @@ class EdgeQLSourceGenerator(codegen.SourceGenerator):
     def visit_Constant(self, node: qlast.Constant) -> None:
         if node.kind == qlast.ConstantKind.STRING:
             if not _NON_PRINTABLE_RE.search(node.value):
-                for d in ("'", '"', '$$'):
+                for d in ("'", '"'):
                     if d not in node.value:
-                        if '\\' in node.value and d != '$$':
+                        if '\\' in node.value:
                             self.write('r', d, node.value, d)
                         else:
                             self.write(d, node.value, d)
                         return
+                # dollar_quote_literal() starts with '$$' and picks a
+                # different tag if the value cannot be enclosed in it.
                 self.write(edgeql_quote.dollar_quote_literal(node.value))
                 return
             self.write(repr(node.value))
